@@ -81,7 +81,7 @@ def audit(prop):
     if rc != 0:
         res["build_output"] = out[-4000:]
     # source hygiene: no sorry/admit/axiom/native_decide/... outside comments in the proof and model sources
-    bad = grep_forbidden()
+    bad = grep_forbidden(mod)
     res["forbidden"] = bad
     if bad:
         res["ok"] = False
@@ -105,18 +105,30 @@ def strip_lean_comments(s):
         out.append(s[i]); i += 1
     return "".join(out)
 
-def grep_forbidden():
+def import_closure(mod):
+    """project-local modules transitively imported by `mod` (by parsing import lines)"""
+    seen, todo = set(), [mod]
+    while todo:
+        m = todo.pop()
+        if m in seen: continue
+        p = os.path.join(LEAN, m.replace(".", "/") + ".lean")
+        if not os.path.exists(p): continue
+        seen.add(m)
+        for line in strip_lean_comments(open(p).read()).splitlines():
+            mm = re.match(r"^\s*(?:public\s+)?import\s+(\S+)", line)
+            if mm: todo.append(mm.group(1))
+    return sorted(seen)
+
+def grep_forbidden(mod=None):
+    """sorry/admit/axiom/native_decide/... outside comments, in the sources the property's module depends on"""
     bad = []
-    for root in ("CircuitModel", "CircuitProofs", "Generated"):
-        d = os.path.join(LEAN, root)
-        for dp, _, fns in os.walk(d):
-            for fn in fns:
-                if not fn.endswith(".lean"): continue
-                p = os.path.join(dp, fn)
-                txt = strip_lean_comments(open(p).read())
-                for n, line in enumerate(txt.splitlines(), 1):
-                    if FORBIDDEN.search(line):
-                        bad.append("%s:%d: %s" % (os.path.relpath(p, LEAN), n, line.strip()[:120]))
+    mods = import_closure(mod) if mod else []
+    for m in mods:
+        p = os.path.join(LEAN, m.replace(".", "/") + ".lean")
+        txt = strip_lean_comments(open(p).read())
+        for n, line in enumerate(txt.splitlines(), 1):
+            if FORBIDDEN.search(line):
+                bad.append("%s:%d: %s" % (os.path.relpath(p, LEAN), n, line.strip()[:120]))
     return bad
 
 def leanchecker(mods):
